@@ -579,6 +579,24 @@ PROPS['C11'].setdefault('scope', {})['SB-DELEGATE'] = (
 PROPS['C01']['rules'] += [R5.rule_formatter_dtype]
 PROPS['C08']['rules'] += [R5.rule_remove_empty_all_axes,
                           R5.rule_filter_inputs]
+from . import rules_round6 as R6  # noqa: E402
+PROPS['C02']['rules'] += [R6.rule_accumulator_drop]
+PROPS['C14']['rules'] += [R6.rule_selection_narrowed]
+PROPS['C14']['rules'].append(partial(
+    R6.rule_whitespace_split, rels={'biom/cli/table_subsetter.py',
+                                    'biom/parse.py'}))
+PROPS['C03']['rules'].append(partial(
+    R6.rule_whitespace_split, rels={'biom/table.py',
+                                    'biom/cli/table_converter.py'}))
+PROPS['C18']['rules'].append(partial(
+    R6.rule_whitespace_split, rels={'biom/parse.py',
+                                    'biom/cli/metadata_adder.py'}))
+PROPS['C17']['rules'].append(partial(
+    R6.rule_whitespace_split, rels={'biom/parse.py', 'biom/table.py',
+                                    'biom/cli/uc_processor.py'}))
+for _p in PROPS.values():
+    for _k, _v in R6.RULE_TEXT.items():
+        _p['rule_texts'].setdefault(_k, ' '.join(_v.split()))
 for _p in PROPS.values():
     for _k, _v in R5.RULE_TEXT.items():
         _p['rule_texts'].setdefault(_k, ' '.join(_v.split()))
